@@ -1,3 +1,4 @@
+import AmrK.Names
 import AmrK.WritersSizes
 /-! # C05 — colander output holds exactly the kept fields and levels, bit for bit
 
@@ -32,5 +33,15 @@ theorem remapping (m : Nat → Option Nat) (idxs offs : List Nat) (hn : idxs.Nod
 example :
     ((colander [⟨"b", 90, 8, 80, 80, [10, 11, 12]⟩, ⟨"a", 0, 8, 80, 80, [20, 21, 22]⟩, ⟨"b", 0, 4, 80, 80, [30, 31, 32]⟩] 3 [2, 0]).map (·.found))
       = [some (0, [12, 10]), some (1, [22, 20]), some (2, [32, 30])] := by decide +kernel
+
+/-- **which fields colander writes**: with a request, the requested names that exist, in request order
+    (a sublist of the request, every existing requested name present); without one, all fields in file
+    order.  `Names.select` is run by the driver and compared with the field list and the kept positions
+    of every real output. -/
+theorem kept_fields_rule (names r : List String) :
+    (Names.select names (some r)).Sublist r ∧ (∀ x ∈ Names.select names (some r), x ∈ names) ∧
+      (∀ x, x ∈ r → x ∈ names → x ∈ Names.select names (some r)) ∧ Names.select names none = names :=
+  ⟨Names.select_some_sublist names r, fun x hx => Names.mem_select names (some r) x hx,
+   fun x hr hn => Names.select_complete names r x hr hn, rfl⟩
 
 end C05
